@@ -157,11 +157,12 @@ def check(repo: Repo, rep: Report) -> None:
                 rep.ob("R1-wrap", sub, short(n.value), all(got.get(sl) == sl for sl in SLOTS),
                        f"the wrapper's slots are not the subscriber's callbacks of the same kind: {got}")
     # an observer OBJECT passed as the first argument is unpacked into its three methods: recognised by type OR by shape
-    unpack = [n for n in sub.direct_nodes() if isinstance(n, ast.If) and any(isinstance(x, ast.Call) and call_name(x) == "isinstance" for x in ast.walk(n.test))
+    from ..rules import effective_test as _eft
+    unpack = [n for n in sub.direct_nodes() if isinstance(n, ast.If) and any(isinstance(x, ast.Call) and call_name(x) == "isinstance" for x in ast.walk(_eft(sub, n.test)))
               and any(isinstance(y, ast.Assign) and isinstance(y.value, ast.Attribute) and y.value.attr == "on_completed" for y in ast.walk(n))]
     oku = False
     if len(unpack) == 1:
-        t_ = unpack[0].test
+        t_ = _eft(sub, unpack[0].test)
         alts = t_.values if isinstance(t_, ast.BoolOp) and isinstance(t_.op, ast.Or) else [t_]
         by_type = any(isinstance(a, ast.Call) and call_name(a) == "isinstance" and "ObserverBase" in u(a) for a in alts)
         by_shape = any("hasattr" in u(a) and "on_next" in u(a) for a in alts if not (isinstance(a, ast.Call) and call_name(a) == "isinstance"))
